@@ -11,7 +11,7 @@ from ..pkt import SYN, ACK, PSH, FIN, RST
 PROP = "C09"
 HEAP_TOL = 4096
 RULE = ("(a) model phase: random traffic in which some segments validate their flow (ack = cookie+1 learned from a probe "
-        "SYN), some repeat on validated flows, and the rest is unvalidated (SYN with all 512 flag values, wrong "
+        "SYN; payloads: nothing, junk, and every application's request incl. STUN CHANGE-REQUEST), some repeat on validated flows, and the rest is unvalidated (SYN with all 512 flag values, wrong "
         "acknowledgement numbers incl. cookie, cookie+2, 0, FIN|ACK, RST, bare ACK - also carrying cookie+1 of a validated flow, from that flow and from foreign tuples -, UDP requests of every application, ICMP, "
         "ARP, mutated garbage; flows whose cookie is exactly 0 / 0xFFFFFFFF; 66 000 (thorough: 300 000) flows validated in one table); after every frame the table size must equal the number of validated flows of the model and "
         "may only grow by one on a validating segment. (b) flood phase: after a warm-up, N unvalidated frames of every kind "
@@ -98,10 +98,11 @@ def model_phase(ctx, cfg, rounds):
         noise = unvalidated_frames(rng, cfg, rng.randrange(20, 120), flows)
         for f in noise:
             script.append(f)
+        apps = [t for _n, _u, t in gen.app_requests(rng)]       # every protocol's request (STUN with CHANGE-REQUEST, portmapper calls, SMB ...) as validating payload
         for (e, sp, dp, ck) in flows:
             for _k in range(rng.choice([0, 1, 1, 2, 3])):
                 script.insert(rng.randrange(len(script) + 1), e.tcp(sp, dp, rng.getrandbits(32), (ck + 1) & 0xFFFFFFFF, PSH | ACK,
-                                                                     rng.choice([b"", b"x", b"GET / HTTP/1.1\r\n\r\n", b"SSH-2.0-a\r\n",
+                                                                     rng.choice(apps) if rng.random() < 0.4 else rng.choice([b"", b"x", b"GET / HTTP/1.1\r\n\r\n", b"SSH-2.0-a\r\n",
                                                                                  # bytes that complete no signature: the flow stays validated all the same
                                                                                  b"OPTIONS sip:nm SIP/2.0\r\nVia: SIP/2.0/TCP nm\r\n", bytes(rng.randrange(1, 256) | 0x80 for _x in range(40))])))
         # control segments that carry the cookie+1 of a (to be) validated flow, on that flow and from unrelated tuples:
